@@ -20,20 +20,25 @@ def RootPtr (c : Conn) : Prop := ∀ t, c.transaction = some t → (c.txn t).isR
 
 /-- `db'` has the same reset style and no idle connection that `db` did not have -/
 structure Shrinks (db db' : DB) : Prop where
-  reset : db'.reset = db.reset
+  cfg : db'.cfg = db.cfg       -- reset_on_return style and skip_autocommit_rollback
   idle : ∀ r, some r ∈ db'.idle → some r ∈ db.idle
   held : PoolClean db → HeldIso db → HeldIso db'
+
+theorem Shrinks.reset {db db' : DB} (h : Shrinks db db') : db'.reset = db.reset :=
+  congrArg Prod.fst h.cfg
+theorem Shrinks.skipAc {db db' : DB} (h : Shrinks db db') : db'.skipAc = db.skipAc :=
+  congrArg Prod.snd h.cfg
 
 theorem Shrinks.clean {db db' : DB} (h : Shrinks db db') (hc : PoolClean db) : PoolClean db' :=
   fun r hr => hc r (h.idle r hr)
 
 theorem Shrinks.refl (db : DB) : Shrinks db db := ⟨rfl, fun _ h => h, fun _ h => h⟩
 theorem Shrinks.trans {a b c : DB} (h1 : Shrinks a b) (h2 : Shrinks b c) : Shrinks a c :=
-  ⟨h2.reset.trans h1.reset, fun r h => h1.idle r (h2.idle r h),
+  ⟨h2.cfg.trans h1.cfg, fun r h => h1.idle r (h2.idle r h),
    fun hc hi => h2.held (h1.clean hc) (h1.held hc hi)⟩
 
 /-- same idle queue, reset style and isolation state of the held connection -/
-theorem shrinks_of_eq {db db' : DB} (h1 : db'.reset = db.reset) (h2 : db'.idle = db.idle)
+theorem shrinks_of_eq {db db' : DB} (h1 : db'.cfg = db.cfg) (h2 : db'.idle = db.idle)
     (h3 : db'.raw.autocommit = db.raw.autocommit) (h4 : db'.raw.readUnc = db.raw.readUnc)
     (h5 : db'.raw.finalize = db.raw.finalize) :
     Shrinks db db' :=
@@ -70,7 +75,7 @@ theorem poolInvalidate_shrinks (db : DB) : Shrinks db db.poolInvalidate := by
 
 /-- everything `checkoutPre` can do: pop the head of the queue and maybe read the clock -/
 structure PreSpec (db db1 : DB) (o : Option Raw) : Prop where
-  reset : db1.reset = db.reset
+  cfg : db1.cfg = db.cfg
   committed : db1.committed = db.committed
   raw : db1.raw = db.raw
   faults : db1.faults = db.faults
@@ -84,7 +89,7 @@ structure PreSpec (db db1 : DB) (o : Option Raw) : Prop where
   out : ∀ r, o = some r → some r ∈ db.idle ∧ ¬ (db.invalTime > r.born)
 
 theorem staleCheck_spec (db : DB) (r : Raw) :
-    (db.staleCheck r).1.reset = db.reset ∧ (db.staleCheck r).1.committed = db.committed ∧
+    (db.staleCheck r).1.cfg = db.cfg ∧ (db.staleCheck r).1.committed = db.committed ∧
     (db.staleCheck r).1.raw = db.raw ∧ (db.staleCheck r).1.faults = db.faults ∧
     (db.staleCheck r).1.listener = db.listener ∧ (db.staleCheck r).1.engineOpts = db.engineOpts ∧
     (db.staleCheck r).1.recycle = db.recycle ∧ (db.staleCheck r).1.nextRid = db.nextRid ∧
@@ -94,7 +99,7 @@ theorem staleCheck_spec (db : DB) (r : Raw) :
   unfold DB.staleCheck
   cases hr : db.recycle with
   | none => simp [hr]
-  | some rc => simp [DB.tick, hr]
+  | some rc => simp [DB.tick, hr, DB.cfg]
 
 theorem checkoutPre_spec (db : DB) : PreSpec db db.checkoutPre.1 db.checkoutPre.2.1 := by
   unfold DB.checkoutPre
@@ -126,7 +131,7 @@ theorem checkoutPre_spec (db : DB) : PreSpec db db.checkoutPre.1 db.checkoutPre.
 
 /-- a state reached by `checkoutPre` relates to the original like `Shrinks` -/
 theorem preSpec_shrinks {db db1 : DB} {o : Option Raw} (h : PreSpec db db1 o) : Shrinks db db1 :=
-  ⟨h.reset, h.idle, fun _ hi => by unfold HeldIso; rw [h.raw]; exact hi⟩
+  ⟨h.cfg, h.idle, fun _ hi => by unfold HeldIso; rw [h.raw]; exact hi⟩
 
 /-- `staleCheck` at most reads the clock -/
 theorem staleCheck_state (db : DB) (r : Raw) :
@@ -169,7 +174,7 @@ theorem checkout_cases (db : DB) (P : DB → Prop)
     | some r => exact h1 db1 r hp
 
 theorem handOut_frame (db : DB) (r : Raw) :
-    (db.handOut r).reset = db.reset ∧ (db.handOut r).committed = db.committed ∧
+    (db.handOut r).cfg = db.cfg ∧ (db.handOut r).committed = db.committed ∧
     (db.handOut r).faults = db.faults ∧ (db.handOut r).listener = db.listener ∧
     (db.handOut r).engineOpts = db.engineOpts ∧ (db.handOut r).recycle = db.recycle ∧
     (db.handOut r).nextRid = db.nextRid ∧ (db.handOut r).invalTime = db.invalTime ∧
@@ -183,8 +188,8 @@ theorem checkout_shrinks (db : DB) : Shrinks db db.checkout := by
   · intro db1 r hp
     have hin := (hp.out r rfl).1
     refine ⟨?_, ?_, ?_⟩
-    · have : (db1.handOut r).reset = db1.reset := by unfold DB.handOut; split <;> rfl
-      rw [this]; exact hp.reset
+    · have : (db1.handOut r).cfg = db1.cfg := by unfold DB.handOut; split <;> rfl
+      rw [this]; exact hp.cfg
     · intro x hx
       have : (db1.handOut r).idle = db1.idle := by unfold DB.handOut; split <;> rfl
       rw [this] at hx; exact hp.idle x hx
@@ -260,9 +265,10 @@ theorem returned_clean (db : DB) (hw : db.raw.working = db.committed) (hs : db.r
     | true => simp [hi (Or.inr hu)]
 
 /-- reset-on-return (rollback or commit) always leaves the pool clean … -/
-theorem checkin_clean_reset (db : DB) (b : Bool) (hrs : db.reset ≠ .none)
+theorem checkin_clean_reset (db : DB) (b : Bool) (hrs : db.reset ≠ .none) (hsk : db.skipAc = false)
     (hb : b = true → HeldClean db) (hc : PoolClean db) (hi : HeldIso db) :
-    PoolClean (db.checkin b) ∧ (db.checkin b).reset = db.reset ∧ HeldIso (db.checkin b) := by
+    PoolClean (db.checkin b) ∧ (db.checkin b).cfg = db.cfg ∧ HeldIso (db.checkin b) := by
+  have hns : db.skipsRollback = false := by simp [DB.skipsRollback, hsk]
   unfold DB.checkin
   cases hr : db.reset with
   | none => exact absurd hr hrs
@@ -271,24 +277,24 @@ theorem checkin_clean_reset (db : DB) (b : Bool) (hrs : db.reset ≠ .none)
     cases b with
     | true =>
       obtain ⟨h1, h2⟩ := hb rfl
-      simp only [if_true, Bool.false_eq_true, if_false]
+      simp only [Bool.true_or, if_true, Bool.false_eq_true, if_false]
       have hrc := returned_clean db h1 h2 hi
-      refine ⟨poolClean_snoc hc rfl hrc _ rfl, hr, heldIso_clean hrc.2.2.1 hrc.2.2.2.1⟩
+      refine ⟨poolClean_snoc hc rfl hrc _ rfl, rfl, heldIso_clean hrc.2.2.1 hrc.2.2.2.1⟩
     | false =>
-      simp only [Bool.false_eq_true, if_false]
+      simp only [hns, Bool.or_self, Bool.false_eq_true, if_false]
       cases hf : db.takeFault .rollback with
       | mk o db1 =>
         have hs : Shrinks db db1 := by have := takeFault_shrinks db .rollback; rw [hf] at this; exact this
         cases o with
         | some k =>
           simp only [if_true]
-          exact ⟨(hs.trans (kill_shrinks db1)).clean hc, by simp [DB.kill, hs.reset, hr],
+          exact ⟨(hs.trans (kill_shrinks db1)).clean hc, by simp [DB.cfg, DB.kill, hs.reset, hs.skipAc],
             heldIso_clean rfl rfl⟩
         | none =>
           simp only [Bool.false_eq_true, if_false]
           have hi1 : HeldIso db1.rollback := (hs.trans (rollback_shrinks db1)).held hc hi
           have hrc := returned_clean db1.rollback rfl rfl hi1
-          refine ⟨poolClean_snoc (hs.clean hc) rfl hrc _ rfl, by simp [DB.rollback, hs.reset, hr],
+          refine ⟨poolClean_snoc (hs.clean hc) rfl hrc _ rfl, by simp [DB.cfg, DB.rollback, hs.reset, hs.skipAc],
             heldIso_clean hrc.2.2.1 hrc.2.2.2.1⟩
   | commit =>
     simp only []
@@ -298,13 +304,13 @@ theorem checkin_clean_reset (db : DB) (b : Bool) (hrs : db.reset ≠ .none)
       cases o with
       | some k =>
         simp only [if_true]
-        exact ⟨(hs.trans (kill_shrinks db1)).clean hc, by simp [DB.kill, hs.reset, hr],
+        exact ⟨(hs.trans (kill_shrinks db1)).clean hc, by simp [DB.cfg, DB.kill, hs.reset, hs.skipAc],
           heldIso_clean rfl rfl⟩
       | none =>
         simp only [Bool.false_eq_true, if_false]
         have hi1 : HeldIso db1.commit := (hs.trans (commit_shrinks db1)).held hc hi
         have hrc := returned_clean db1.commit rfl rfl hi1
-        refine ⟨poolClean_snoc (hs.clean hc) rfl hrc _ rfl, by simp [DB.commit, hs.reset, hr],
+        refine ⟨poolClean_snoc (hs.clean hc) rfl hrc _ rfl, by simp [DB.cfg, DB.commit, hs.reset, hs.skipAc],
           heldIso_clean hrc.2.2.1 hrc.2.2.2.1⟩
 
 /-- a checkout from a clean pool sees exactly the committed rows, has no savepoints and
@@ -643,13 +649,19 @@ theorem plainError_pres (c : Conn) : Pres c c.plainError.1 := by
   split
   · exact Pres.refl c
   · split
-    · cases hf : c.db.takeFault .rollback with
-      | mk o db1 =>
-        have hs : Shrinks c.db db1 := by
-          have := takeFault_shrinks c.db .rollback; rw [hf] at this; exact this
-        cases o with
-        | some _ => exact pres_db c db1 hs
-        | none => exact pres_db c _ (hs.trans (rollback_shrinks db1))
+    · split
+      · exact Pres.refl c
+      · cases hf : c.db.takeFault .rollback with
+        | mk o db1 =>
+          have hs : Shrinks c.db db1 := by
+            have := takeFault_shrinks c.db .rollback; rw [hf] at this; exact this
+          cases o with
+          | some k =>
+            cases k with
+            | err => exact pres_db c db1 hs
+            | disc => exact (pres_db c db1 hs).trans (discError_pres _)
+            | kbi => exact (pres_db c db1 hs).trans (discError_pres _)
+          | none => exact pres_db c _ (hs.trans (rollback_shrinks db1))
     · exact Pres.refl c
 
 theorem kbiError_pres (c : Conn) : Pres c c.kbiError.1 := by
@@ -750,7 +762,9 @@ theorem rootDeactivate_pres (c : Conn) (h : Nat) : Pres c (c.rootDeactivate h) :
 theorem rollbackImpl_pres (c : Conn) : Pres c c.rollbackImpl.1 := by
   unfold Conn.rollbackImpl
   split
-  · exact dbapiCall_pres c .rollback DB.rollback rollback_shrinks
+  · split
+    · exact Pres.refl c
+    · exact dbapiCall_pres c .rollback DB.rollback rollback_shrinks
   · exact Pres.refl c
 
 theorem rootCloseFinally_pres (c : Conn) (h : Nat) (b : Bool) : Pres c (c.rootCloseFinally h b) := by
@@ -898,10 +912,18 @@ theorem setReadUnc_pres (c : Conn) : Pres c c.setReadUnc.1 := by
 
 /-! ### close(), garbage collection, new checkouts -/
 
-def Inv (c : Conn) : Prop := WFc c ∧ PoolClean c.db ∧ c.db.reset ≠ .none ∧ HeldIso c.db
+theorem resets_of_cfg {db db' : DB} (h : db'.cfg = db.cfg) (h3 : db.reset ≠ .none ∧ db.skipAc = false) :
+    db'.reset ≠ .none ∧ db'.skipAc = false := by
+  have a := congrArg Prod.fst h
+  have b := congrArg Prod.snd h
+  simp only [DB.cfg] at a b
+  rw [a, b]; exact h3
+
+def Inv (c : Conn) : Prop :=
+  WFc c ∧ PoolClean c.db ∧ (c.db.reset ≠ .none ∧ c.db.skipAc = false) ∧ HeldIso c.db
 
 theorem Pres.inv {c c' : Conn} (h : Pres c c') (hi : Inv c) : Inv c' :=
-  ⟨h.root hi.1, h.db.clean hi.2.1, by rw [h.db.reset]; exact hi.2.2.1, h.db.held hi.2.1 hi.2.2.2⟩
+  ⟨h.root hi.1, h.db.clean hi.2.1, by rw [h.db.reset, h.db.skipAc]; exact hi.2.2.1, h.db.held hi.2.1 hi.2.2.2⟩
 
 /-- functions that touch neither the database nor the DBAPI connection -/
 structure SameDb (c c' : Conn) : Prop where
@@ -969,7 +991,9 @@ theorem plainError_ne_ok (c : Conn) : c.plainError.2 ≠ .ok := by
   split
   · simp
   · split
-    · split <;> simp
+    · split
+      · simp
+      · split <;> simp
     · simp
 
 theorem dbapiError_ne_ok (c : Conn) (k : FKind) : (c.dbapiError k).2 ≠ .ok := by
@@ -986,8 +1010,10 @@ theorem dbapiError_ne_ok (c : Conn) (k : FKind) : (c.dbapiError k).2 ≠ .ok := 
 /-- closing an ACTIVE root transaction without error while the DBAPI connection is still
     held means the ROLLBACK really happened -/
 theorem rootClose_heldClean (c : Conn) (t : Nat) (b : Bool) (hact : c.act t = true)
+    (hsk : c.db.skipAc = false)
     (hok : (c.rootCloseImpl t b).2 = .ok) (hd : (c.rootCloseImpl t b).1.hasDbapi = true) :
     HeldClean (c.rootCloseImpl t b).1.db := by
+  have hns : c.db.skipsRollback = false := by simp [DB.skipsRollback, hsk]
   unfold Conn.rootCloseImpl at hok hd ⊢
   simp only [hact, if_true, andFinally] at hok hd ⊢
   have hf := sameDb_rootCloseFinally
@@ -1001,7 +1027,7 @@ theorem rootClose_heldClean (c : Conn) (t : Nat) (b : Bool) (hact : c.act t = tr
     rw [(sameDb_cancelNested c).hasDbapi, hh] at hd
     cases hd
   | true =>
-    simp only [hh, if_true] at hok hd ⊢
+    simp only [hh, if_true, hns, Bool.false_eq_true, if_false] at hok hd ⊢
     unfold Conn.dbapiCall at hok hd ⊢
     cases hf' : c.db.takeFault .rollback with
     | mk o db1 =>
@@ -1025,8 +1051,8 @@ theorem release_inv {c : Conn} (b : Bool) (hi : Inv c) (hb : b = true → c.hasD
   | false => simp only [Bool.false_eq_true, if_false]; exact ⟨wfc_congr (by rfl) (by rfl) (by rfl) h1, h2, h3, h4⟩
   | true =>
     simp only [if_true]
-    obtain ⟨k1, k2, k3⟩ := checkin_clean_reset c.db b h3 (fun e => hb e hh) h2 h4
-    exact ⟨wfc_congr (by rfl) (by rfl) (by rfl) h1, k1, by rw [k2]; exact h3, k3⟩
+    obtain ⟨k1, k2, k3⟩ := checkin_clean_reset c.db b h3.1 h3.2 (fun e => hb e hh) h2 h4
+    exact ⟨wfc_congr (by rfl) (by rfl) (by rfl) h1, k1, resets_of_cfg k2 h3, k3⟩
 
 theorem releaseOrInterrupt_inv {c : Conn} (b : Bool) (hi : Inv c)
     (hb : b = true → c.hasDbapi = true → HeldClean c.db) : Inv (c.releaseOrInterrupt b).1 := by
@@ -1035,8 +1061,8 @@ theorem releaseOrInterrupt_inv {c : Conn} (b : Bool) (hi : Inv c)
   · rename_i hcond
     simp only [Bool.and_eq_true] at hcond
     obtain ⟨h1, h2, h3, h4⟩ := hi
-    obtain ⟨k1, k2, k3⟩ := checkin_clean_reset c.db b h3 (fun e => hb e hcond.1) h2 h4
-    exact ⟨wfc_congr (by rfl) (by rfl) (by rfl) h1, k1, by rw [k2]; exact h3, k3⟩
+    obtain ⟨k1, k2, k3⟩ := checkin_clean_reset c.db b h3.1 h3.2 (fun e => hb e hcond.1) h2 h4
+    exact ⟨wfc_congr (by rfl) (by rfl) (by rfl) h1, k1, resets_of_cfg k2 h3, k3⟩
   · exact release_inv b hi hb
 
 theorem close_inv {c : Conn} (hi : Inv c) : Inv c.close.1 := by
@@ -1057,7 +1083,7 @@ theorem close_inv {c : Conn} (hi : Inv c) : Inv c.close.1 := by
       have hroot := hi.1.1 t ht
       have e2 : c.tClose t = c.rootCloseImpl t false := by simp [Conn.tClose, hroot]
       rw [e2] at hr hd ⊢
-      exact rootClose_heldClean c t false hact hr hd
+      exact rootClose_heldClean c t false hact hi.2.2.1.2 hr hd
     | _ =>
       rw [andThen_not_ok (by rw [hr]; simp)]
       exact hp.inv hi
@@ -1074,18 +1100,19 @@ theorem gc_inv {c : Conn} (hi : Inv c) : Inv c.gc := by
     | false => simp only [Bool.false_eq_true, if_false]; exact ⟨h2, h3, h4⟩
     | true =>
       simp only [if_true]
-      obtain ⟨k1, k2, k3⟩ := checkin_clean_reset c.db false h3 (fun e => by cases e) h2 h4
-      exact ⟨k1, by rw [k2]; exact h3, k3⟩
+      obtain ⟨k1, k2, k3⟩ := checkin_clean_reset c.db false h3.1 h3.2 (fun e => by cases e) h2 h4
+      exact ⟨k1, resets_of_cfg k2 h3, k3⟩
 
-theorem connect_inv {db : DB} (h2 : PoolClean db) (h3 : db.reset ≠ .none) (h4 : HeldIso db) :
-    Inv (Conn.connect db) :=
-  ⟨wfc_empty rfl rfl rfl, (connectRaw_shrinks db).clean h2, (by
-    show db.connectRaw.reset ≠ .none
-    rw [(connectRaw_shrinks db).reset]; exact h3), (connectRaw_shrinks db).held h2 h4⟩
+theorem connect_inv {db : DB} (h2 : PoolClean db) (h3 : db.reset ≠ .none ∧ db.skipAc = false)
+    (h4 : HeldIso db) : Inv (Conn.connect db) :=
+  ⟨wfc_empty rfl rfl rfl, (connectRaw_shrinks db).clean h2,
+   resets_of_cfg (connectRaw_shrinks db).cfg h3, (connectRaw_shrinks db).held h2 h4⟩
 
-theorem warmTake_clean : ∀ (n : Nat) (db : DB) (acc : List Raw), PoolClean db → db.reset ≠ .none →
+theorem warmTake_clean : ∀ (n : Nat) (db : DB) (acc : List Raw), PoolClean db →
+    (db.reset ≠ .none ∧ db.skipAc = false) →
     HeldIso db → (∀ r ∈ acc, IsoOk r) →
-    PoolClean (DB.warmTake n db acc).1 ∧ (DB.warmTake n db acc).1.reset ≠ .none ∧
+    PoolClean (DB.warmTake n db acc).1 ∧
+    ((DB.warmTake n db acc).1.reset ≠ .none ∧ (DB.warmTake n db acc).1.skipAc = false) ∧
     (∀ r ∈ (DB.warmTake n db acc).2, IsoOk r) := by
   intro n
   induction n with
@@ -1094,7 +1121,7 @@ theorem warmTake_clean : ∀ (n : Nat) (db : DB) (acc : List Raw), PoolClean db 
     intro db acc h2 h3 h4 h5
     simp only [DB.warmTake]
     have hs := connectRaw_shrinks db
-    refine ih _ _ (hs.clean h2) (by rw [hs.reset]; exact h3) (hs.held h2 h4) ?_
+    refine ih _ _ (hs.clean h2) (resets_of_cfg hs.cfg h3) (hs.held h2 h4) ?_
     intro r hr
     rcases List.mem_append.1 hr with hr | hr
     · exact h5 r hr
@@ -1102,9 +1129,11 @@ theorem warmTake_clean : ∀ (n : Nat) (db : DB) (acc : List Raw), PoolClean db 
       subst hr
       exact hs.held h2 h4
 
-theorem warmReturn_clean : ∀ (l : List Raw) (db : DB), PoolClean db → db.reset ≠ .none →
+theorem warmReturn_clean : ∀ (l : List Raw) (db : DB), PoolClean db →
+    (db.reset ≠ .none ∧ db.skipAc = false) →
     (∀ r ∈ l, IsoOk r) →
-    PoolClean (DB.warmReturn l db) ∧ (DB.warmReturn l db).reset ≠ .none := by
+    PoolClean (DB.warmReturn l db) ∧
+    ((DB.warmReturn l db).reset ≠ .none ∧ (DB.warmReturn l db).skipAc = false) := by
   intro l
   induction l with
   | nil => intro db h2 h3 _; exact ⟨h2, h3⟩
@@ -1112,12 +1141,15 @@ theorem warmReturn_clean : ∀ (l : List Raw) (db : DB), PoolClean db → db.res
     intro db h2 h3 h5
     simp only [DB.warmReturn]
     have hc : PoolClean ({ db with raw := r } : DB) := h2
-    obtain ⟨k1, k2, _⟩ := checkin_clean_reset ({ db with raw := r } : DB) false h3 (fun e => by cases e) hc
-      (h5 r List.mem_cons_self)
-    exact ih _ k1 (by rw [k2]; exact h3) (fun x hx => h5 x (List.mem_cons_of_mem _ hx))
+    obtain ⟨k1, k2, _⟩ := checkin_clean_reset ({ db with raw := r } : DB) false h3.1 h3.2
+      (fun e => by cases e) hc (h5 r List.mem_cons_self)
+    exact ih _ k1 (resets_of_cfg (db := ({ db with raw := r } : DB)) k2 h3)
+      (fun x hx => h5 x (List.mem_cons_of_mem _ hx))
 
-theorem warm_clean (n : Nat) (db : DB) (h2 : PoolClean db) (h3 : db.reset ≠ .none) (h4 : HeldIso db) :
-    PoolClean (DB.warm n db) ∧ (DB.warm n db).reset ≠ .none ∧ HeldIso (DB.warm n db) := by
+theorem warm_clean (n : Nat) (db : DB) (h2 : PoolClean db) (h3 : db.reset ≠ .none ∧ db.skipAc = false)
+    (h4 : HeldIso db) :
+    PoolClean (DB.warm n db) ∧ ((DB.warm n db).reset ≠ .none ∧ (DB.warm n db).skipAc = false) ∧
+    HeldIso (DB.warm n db) := by
   unfold DB.warm
   simp only []
   obtain ⟨a1, a2, a3⟩ := warmTake_clean n db [] h2 h3 h4 (fun _ h => by cases h)
